@@ -422,6 +422,22 @@ impl MqttShared {
         }
     }
 
+    /// Remove ack registered with `wait_response()`, packet is not sent
+    pub(super) fn cancel_response(&self, id: num::NonZeroU16) {
+        let mut queues = self.queues.borrow_mut();
+        if queues.inflight.back().is_some_and(|item| item.0 == id) {
+            queues.inflight.pop_back();
+            queues.inflight_ids.remove(&id);
+
+            // wake up queued request (receive max limit)
+            while let Some(tx) = queues.waiters.pop_front() {
+                if tx.send(()).is_ok() {
+                    break;
+                }
+            }
+        }
+    }
+
     /// Register ack in response channel
     pub(super) fn wait_publish_response(
         &self,
